@@ -748,3 +748,42 @@ def rule_declared_order(F, ev, R, config, rule="R-DECLARED-ORDER"):
                 if pf:
                     R.bad(rule, config, b.key, "list-mut-borrow:" + pf[0]["name"], "a stored name list of the function builder is borrowed mutably (reordered / changed in place?)", s.get("span"))
     R.floor(rule, config, 3, "constructor, derivative wrapper, rebuild in partial_deriv")
+
+
+def rule_model_sealed(F, ev, R, config, rule="R-MODEL-SEALED"):
+    """a built SeparableModel can only change through SeparableNonlinearModel::set_params, and only its parameter vector:
+    no public field; no assignment to / mutable borrow of any field anywhere in the crate except the parameter role inside
+    the trait's set_params; no function handing out `&mut` into the model; constructed only by the builder's finaliser
+    (TryInto) or Clone. A new public setter (renaming the parameters, say) would create states the builder never does:
+    the length checks read the name list while the wrapped functions keep their original parameter indices."""
+    sm = sepmodel_roles(F, ev)
+    for f in struct_fields(F, ADT_SEPMODEL):
+        ok = f["vis"] != "pub"
+        R.add(rule, config, ADT_SEPMODEL, "private:" + f["name"], ok, "" if ok else "field `%s` of SeparableModel is public" % f["name"])
+    setp = set(b.key for b in trait_impl_methods(F, TRAIT_MODEL, ADT_SEPMODEL, "set_params"))
+    for b in sorted(F.bodies.values(), key=lambda x: x.key):
+        im = b.j.get("impl", {})
+        root = b.j.get("root", b.key)
+        out = b.j.get("output", "")
+        if b.kind != "Closure" and im.get("self_adt") == ADT_SEPMODEL and "&mut" in out:
+            R.bad(rule, config, b.key, "no-mut-escape", "returns a mutable reference `%s` into the model" % out[:60], b.j["span"])
+        if im.get("trait") == "std::clone::Clone" and im.get("self_adt") == ADT_SEPMODEL:
+            continue
+        for bi, si, s in b.stmts():
+            if s["k"] != "assign":
+                continue
+            pf = [e for e in s["place"]["proj"] if e["k"] == "field" and e.get("owner") == ADT_SEPMODEL]
+            if pf:
+                ok = pf[0]["name"] == sm["params"] and root in setp and len([e for e in s["place"]["proj"] if e["k"] == "field"]) == 1
+                R.add(rule, config, b.key, "write:" + pf[0]["name"], ok,
+                      "" if ok else "field `%s` of a built model is written outside SeparableNonlinearModel::set_params" % pf[0]["name"], s.get("span"))
+            rv = s["rv"]
+            if rv["k"] in ("ref", "rawptr") and rv.get("mut"):
+                pf = [e for e in rv["place"]["proj"] if e["k"] == "field" and e.get("owner") == ADT_SEPMODEL]
+                if pf:
+                    R.bad(rule, config, b.key, "mut-borrow:" + pf[0]["name"], "mutable borrow of field `%s` of a built model" % pf[0]["name"], s.get("span"))
+            if rv["k"] == "agg" and rv.get("adt") == ADT_SEPMODEL:
+                ok = im.get("trait", "").startswith("std::convert::TryInto") or im.get("trait", "").startswith("std::convert::TryFrom") or \
+                    (F.bodies.get(root, b).j.get("impl", {}).get("self_adt") in (ADT_MBUILDER, "model::builder::UnfinishedModel"))
+                R.add(rule, config, b.key, "constructs-model", ok, "" if ok else "a SeparableModel is constructed outside the builder's finaliser", s.get("span"))
+    R.floor(rule, config, 6, "4 private fields, the parameter write, the constructor")
